@@ -1,1 +1,1 @@
-def wedgeScaleIsDivTilt : Bool := false
+def wedgeScaleIsDivTilt : Bool := true
